@@ -57,7 +57,7 @@ def san_closure(d, s):
             # (an explicit `return`: a closure spliced into the generated function instead of being called would leave it early)
             return "|mut s: String| { s.push('A'); return s; }"
         if fn == "take2":
-            return "|s: String| s.chars().take(2).collect::<String>()"
+            return "|s: String| { return s.chars().take(2).collect::<String>(); }"
     if fam == "any" and d.get("ty") in ("Point", "Gen<Point>"):
         if fn == "rev":
             return "|p: Point| Point(p.1, p.0)"
